@@ -90,4 +90,9 @@ TypesOverlap(S, a, b) == PossibleTypes(S, a) \cap PossibleTypes(S, b) # {}
 IdxKey(i) == CASE i = 0 -> "#0" [] i = 1 -> "#1" [] i = 2 -> "#2" [] i = 3 -> "#3"
                [] i = 4 -> "#4" [] i = 5 -> "#5" [] OTHER -> "#n"
 
+IsIdxKey(k) == k \in {"#0", "#1", "#2", "#3", "#4", "#5", "#n"}
+RECURSIVE StripIdx(_)
+\* the path of the enclosing field: trailing list indices removed
+StripIdx(p) == IF p # <<>> /\ IsIdxKey(p[Len(p)]) THEN StripIdx(SubSeq(p, 1, Len(p) - 1)) ELSE p
+
 =============================================================================
